@@ -208,8 +208,14 @@ class Unit:
             if isinstance(unit_expr, bytes):
                 unit_expr = unit_expr.decode("utf-8")
 
-            # this cache substantially speeds up unit conversions
-            if registry and unit_expr in registry._unit_object_cache:
+            # this cache substantially speeds up unit conversions; it holds
+            # what a string means in the registry, so it cannot answer for a
+            # caller that supplies the unit data itself (e.g. Unit.copy)
+            if (
+                registry
+                and base_value is None
+                and unit_expr in registry._unit_object_cache
+            ):
                 return registry._unit_object_cache[unit_expr]
             unit_cache_key = unit_expr
             unit_expr = parse_unyt_expr(unit_expr)
